@@ -56,13 +56,15 @@ class Mat:
             return Mat([0] * shape, 1)
         if len(shape) == 1:
             return Mat([0] * shape[0], 1)
-        return Mat([[0] * shape[1] for _ in range(shape[0])], 2)
+        m = Mat([[0] * shape[1] for _ in range(shape[0])], 2)
+        m.ncols = shape[1]          # remembered for matrices without rows
+        return m
 
     @property
     def shape(self):
         if self.ndim == 1:
             return (len(self.d),)
-        return (len(self.d), len(self.d[0]) if self.d else 0)
+        return (len(self.d), len(self.d[0]) if self.d else getattr(self, "ncols", 0))
 
     def copy(self):
         return Mat([list(r) for r in self.d], 2) if self.ndim == 2 else Mat(list(self.d), 1)
@@ -757,14 +759,18 @@ class CE:
 
     def matmul(self, a, b):
         if isinstance(a, Mat) and isinstance(b, Mat) and a.ndim == 2 and b.ndim == 2:
-            bt = b.transpose().d
-            return Mat([[sum(x * y for x, y in zip(r, c)) for c in bt] for r in a.d], 2)
+            if a.shape[1] != b.shape[0]:
+                raise CERaise("ValueError", f"matmul: shapes {a.shape} and {b.shape} do not match")
+            ncols = b.shape[1]
+            r_ = Mat([[sum(row[k] * b.d[k][j] for k in range(len(b.d))) for j in range(ncols)] for row in a.d], 2)
+            r_.ncols = ncols
+            return r_
         if isinstance(a, Mat) and isinstance(b, Mat) and a.ndim == 2 and b.ndim == 1:
             return Mat([sum(x * y for x, y in zip(r, b.d)) for r in a.d], 1)
         if isinstance(a, Mat) and isinstance(b, Mat) and a.ndim == 1 and b.ndim == 2:
             if len(a.d) != len(b.d):
                 raise CERaise("ValueError", "matmul: shapes do not match")
-            return Mat([sum(x * row[j] for x, row in zip(a.d, b.d)) for j in range(len(b.d[0]) if b.d else 0)], 1)
+            return Mat([sum(x * row[j] for x, row in zip(a.d, b.d)) for j in range(b.shape[1])], 1)
         if isinstance(a, Mat) and isinstance(b, Mat) and a.ndim == 1 and b.ndim == 1:
             if len(a.d) != len(b.d):
                 raise CERaise("ValueError", "matmul: shapes do not match")
